@@ -158,19 +158,23 @@ Proof.
       destruct (reflex_loop (S (List.length (c :: r))) (c :: r) 0 (mkRstate false None [] 0) [] []) as [[T E] rs]. exact (W _ _ _ _ _ H).
 Qed.
 
-(** ** ... and keeps the line protocol: the monitor of C04 is on when the run ends, at the end of the text *)
+(** ** ... and keeps the line protocol: the monitor of C04 is on when the run ends, at the end of the text,
+    with the EOF token in place *)
 Theorem lex_lines_macro_free msep src :
   okP (body_of src) = true ->
   let r := lex (mkCfg false msep) src in
   lr_outcome r = None /\
   g_lines_ok (s_ghost (lr_state r)) = true /\ g_line_debt (s_ghost (lr_state r)) = false /\
-  c_rest (s_cur (lr_state r)) = [].
+  c_rest (s_cur (lr_state r)) = [] /\
+  match w_toks (s_buf (lr_state r)) with t :: _ => tt_eqb (t_type t) T_EOF | [] => false end = true.
 Proof.
   assert (W : forall (r : lex_result),
-            lr_outcome r = None /\ lines_pos (lr_state r) /\ c_rest (s_cur (lr_state r)) = [] ->
+            lr_outcome r = None /\ lines_pos (lr_state r) /\ c_rest (s_cur (lr_state r)) = [] /\
+            (exists te tr, w_toks (s_buf (lr_state r)) = te :: tr /\ t_type te = T_EOF) ->
             lr_outcome r = None /\ g_lines_ok (s_ghost (lr_state r)) = true /\ g_line_debt (s_ghost (lr_state r)) = false /\
-            c_rest (s_cur (lr_state r)) = []).
-  { intros r (H1 & [_ [H2 H3]] & H4). repeat (split; [assumption|]). assumption. }
+            c_rest (s_cur (lr_state r)) = [] /\
+            match w_toks (s_buf (lr_state r)) with t :: _ => tt_eqb (t_type t) T_EOF | [] => false end = true).
+  { intros r (H1 & [_ [H2 H3]] & H4 & (te & tr & H5 & H6)). repeat (split; [assumption|]). rewrite H5, H6. reflexivity. }
   intros Hok. cbv zeta. unfold lex, body_of in *. unfold split_bom in *.
   destruct src as [|c r].
   - cbn [snd] in *. apply W.
